@@ -41,8 +41,17 @@ type Cross struct {
 	IdleMs     int
 	IdlePauses int
 	TsigProv   bool // TSIG rounds: keys are supplied through the TsigProvider field of Server and Conn instead of TsigSecret
-	Tsig       bool // server has a TSIG secret, every request and reply is signed; TsigStatus must be nil for every request
-	Salt       uint32
+	// Restart: when the round is over the server is shut down and the SAME dns.Server value is started
+	// again on a fresh socket / listener of the same transport (state carried from one lifetime of the
+	// value into the next: buffer pool, connection table, TSIG settings); the same number of clients
+	// then run a second round (requests Reqs+1..2*Reqs). UDPSize2 != 0 is written into Server.UDPSize
+	// between the Shutdown and the second start. Big2: the requests of the second round are padded
+	// to fill most of the receive buffer then in force, else most of the smaller of the two buffers.
+	Restart  bool
+	UDPSize2 int
+	Big2     bool
+	Tsig     bool // server has a TSIG secret, every request and reply is signed; TsigStatus must be nil for every request
+	Salt     uint32
 }
 
 func genCross(transports []string) func(t *rapid.T) Cross {
@@ -70,12 +79,54 @@ func genCross(transports []string) func(t *rapid.T) Cross {
 		if !pbt.Thorough() && c.Clients*c.Reqs > 192 {
 			c.Reqs = 192 / c.Clients
 		}
+		if rapid.IntRange(0, 9).Draw(t, "restart") < 3 {
+			c.Restart = true
+			c.UDPSize2 = rapid.SampledFrom([]int{0, 512, 1232, 4096, 4096}).Draw(t, "udpSize2")
+			c.Big2 = rapid.IntRange(0, 2).Draw(t, "big2") > 0
+			if rapid.Bool().Draw(t, "grow") {
+				// a small buffer first, a larger one for the second start
+				c.UDPSize = rapid.SampledFrom([]int{0, 512, 1232}).Draw(t, "udpSizeSmall")
+				c.UDPSize2 = rapid.SampledFrom([]int{1232, 4096, 4096}).Draw(t, "udpSizeLarge")
+			}
+			c.Reqs = (c.Reqs + 1) / 2 // two rounds: keep the cost of the case where it was
+			if c.restartGrowsBuffer() && c.Big2 && pbt.Known(knownRestartPool) {
+				pbt.Excluded(knownRestartPool)
+				c.Big2 = false
+			}
+		}
 		n := rapid.IntRange(1, 6).Draw(t, "nsleep")
 		for i := 0; i < n; i++ {
 			c.SleepUs = append(c.SleepUs, rapid.SampledFrom([]int{0, 0, 50, 200, 500, 1000, 2000}).Draw(t, "sleep"))
 		}
 		return c
 	}
+}
+
+// knownRestartPool is the id of the finding "a Server restarted with a larger UDPSize keeps handing
+// out the receive buffers of its previous lifetime" (KNOWN_FINDINGS.txt). While it is listed and its
+// probe reproduces, second rounds behind a GROWN datagram buffer keep their requests within the old
+// buffer size (Big2 is cleared); everything else about restarts stays generated.
+const knownRestartPool = "restart-larger-udpsize-stale-pool"
+
+// bufSize is the receive buffer size of the datagram server in round ph (0 or 1).
+func (c Cross) bufSize(ph int) int {
+	b := c.UDPSize
+	if ph > 0 && c.UDPSize2 != 0 {
+		b = c.UDPSize2
+	}
+	if b == 0 {
+		b = 512 // Server.UDPSize 0 means dns.MinMsgSize
+	}
+	return b
+}
+
+func (c Cross) datagramTransport() bool {
+	return c.Transport == "memPacket" || c.Transport == "realUDP" || c.Transport == "realUDPwild"
+}
+
+// restartGrowsBuffer: the class of the finding - second start of a datagram server with a larger UDPSize.
+func (c Cross) restartGrowsBuffer() bool {
+	return c.Restart && c.datagramTransport() && c.bufSize(1) > c.bufSize(0)
 }
 
 // Tokens carry, besides the case's salt, a nonce unique to this process and round: on loopback
@@ -166,7 +217,29 @@ func tokens(m *dns.Msg) (qn, txt, opt string, ok bool) {
 	return qn, txt, opt, txt != "" && opt != ""
 }
 
-func (s *crossState) request(cl, q int) *dns.Msg {
+// firstRoundPad is the TXT padding of the first round's requests: they fit the smallest (512-octet) buffer.
+func (s *crossState) firstRoundPad() int {
+	pad := min(s.c.Pad, 255)
+	if s.c.Tsig {
+		pad = min(pad, 120) // leave room for the TSIG record inside the 512-octet receive buffer
+	}
+	return pad
+}
+
+// padFor returns the TXT padding with which a request of this round comes to about target octets
+// on the wire (never beyond it; never less than the first round's padding unless that would not fit).
+func (s *crossState) padFor(target int) int {
+	base := s.request(64, 16, 0) // the longest token of the case
+	n0 := base.Len()
+	if s.c.Tsig {
+		n0 += 80 // MAC and the fields that signing adds to the stub
+	}
+	room := target - n0 - 16
+	pad := room - (room/255 + 1) // one length octet per character-string of at most 255 octets
+	return max(0, pad)
+}
+
+func (s *crossState) request(cl, q, pad int) *dns.Msg {
 	c := s.c
 	tok := s.token(cl, q)
 	m := new(dns.Msg)
@@ -177,12 +250,8 @@ func (s *crossState) request(cl, q int) *dns.Msg {
 		m.Id = uint16(cl*251 + q*7 + int(c.Salt&0xff))
 	}
 	txt := []string{tok}
-	pad := min(c.Pad, 255)
-	if c.Tsig {
-		pad = min(pad, 120) // leave room for the TSIG record inside the 512-octet receive buffer
-	}
-	if pad > 0 {
-		txt = append(txt, strings.Repeat("p", pad))
+	for ; pad > 0; pad -= min(pad, 255) {
+		txt = append(txt, strings.Repeat("p", min(pad, 255)))
 	}
 	m.Extra = append(m.Extra, &dns.TXT{Hdr: dns.RR_Header{Name: "tok.", Rrtype: dns.TypeTXT, Class: dns.ClassINET}, Txt: txt})
 	o := &dns.OPT{Hdr: dns.RR_Header{Name: ".", Rrtype: dns.TypeOPT}}
@@ -227,6 +296,7 @@ type crossState struct {
 	bad          []string
 	multi        bool           // realUDPwild: several local addresses are usable
 	idle         bool           // the round starts with a silence of several read time-outs
+	grown        bool           // second round: requests larger than the first lifetime's receive buffer
 	addrs        map[int]string // client index -> its local address, as the server must see it
 	srvLocal     string         // the address the server listens on
 	asyncPending atomic.Int32   // late repliers still at work (an atomic, not a WaitGroup: Add would race with Wait across a real socket)
@@ -299,15 +369,15 @@ func (s *crossState) handler(w dns.ResponseWriter, req *dns.Msg) {
 	var cl, q int
 	fmt.Sscanf(qn, "c%dq%d", &cl, &q)
 	s.mu.Lock()
-	wantRemote := s.addrs[cl]
+	wantRemote, srvLocal := s.addrs[cl], s.srvLocal
 	s.mu.Unlock()
 	remote, local := w.RemoteAddr().String(), w.LocalAddr().String()
 	wild := s.c.Transport == "realUDPwild"
 	if !sameEndpoint(remote, wantRemote, wild) {
 		s.fail("handler of token %q (client %d at %s): RemoteAddr() = %s", qn, cl, wantRemote, remote)
 	}
-	if local != s.srvLocal {
-		s.fail("handler of token %q: LocalAddr() = %s, the server listens on %s", qn, local, s.srvLocal)
+	if local != srvLocal {
+		s.fail("handler of token %q: LocalAddr() = %s, the server listens on %s", qn, local, srvLocal)
 	}
 	before := req.String()
 	s.mu.Lock()
@@ -380,6 +450,18 @@ func checkCross(c Cross) error {
 	if s.idle {
 		cl = append(cl, "idle-timeouts-then-burst")
 	}
+	if c.Restart {
+		cl = append(cl, "restart-of-the-same-Server")
+		if c.restartGrowsBuffer() {
+			cl = append(cl, "restart-with-larger-UDPSize")
+		}
+		if c.datagramTransport() && c.bufSize(1) < c.bufSize(0) {
+			cl = append(cl, "restart-with-smaller-UDPSize")
+		}
+		if s.grown {
+			cl = append(cl, "restart-requests-beyond-old-buffer")
+		}
+	}
 	if s.lateReplies.Load() > 0 {
 		cl = append(cl, "replies-after-ServeDNS-returned")
 	}
@@ -422,7 +504,7 @@ func bucket(n int) int {
 func (s *crossState) run() (lost int, err error) {
 	c := s.c
 	srv := &dns.Server{Handler: dns.HandlerFunc(s.handler), ReadTimeout: time.Minute, IdleTimeout: func() time.Duration { return time.Minute }, UDPSize: c.UDPSize}
-	if c.IdleMs > 0 && (c.Transport == "memPacket" || c.Transport == "realUDP" || c.Transport == "realUDPwild") {
+	if c.IdleMs > 0 && c.datagramTransport() {
 		srv.ReadTimeout = time.Duration(c.IdleMs) * time.Millisecond
 		s.idle = true
 	}
@@ -435,12 +517,68 @@ func (s *crossState) run() (lost int, err error) {
 		// TXT + OPT + TSIG are three additional records; the default policy refuses more than two
 		srv.MsgAcceptFunc = func(dns.Header) dns.MsgAcceptAction { return dns.MsgAccept }
 	}
+	rounds := 1
+	if c.Restart {
+		rounds = 2
+	}
+	for ph := 0; ph < rounds; ph++ {
+		pad := s.firstRoundPad()
+		if ph > 0 {
+			// the same Server value starts again; a caller may have reconfigured it in between
+			if c.UDPSize2 != 0 {
+				srv.UDPSize = c.UDPSize2
+			}
+			target := min(c.bufSize(0), c.bufSize(1))
+			if c.Big2 {
+				target = c.bufSize(1)
+			}
+			pad = max(pad, s.padFor(target))
+			if c.datagramTransport() && target > c.bufSize(0) {
+				s.grown = true
+			}
+		}
+		l, e := s.round(srv, ph, pad)
+		lost += l
+		if e != nil {
+			return lost, e
+		}
+	}
+	s.mu.Lock()
+	defer s.mu.Unlock()
+	if len(s.bad) > 0 {
+		return lost, fmt.Errorf("%s", strings.Join(s.bad, "\n"))
+	}
+	// every handler saw exactly one sent request: each token at most once, and - unless a real
+	// datagram was lost on the way in - exactly once
+	for cl := 1; cl <= c.Clients; cl++ {
+		for q := 1; q <= rounds*c.Reqs; q++ {
+			n := s.seen[s.token(cl, q)]
+			if n > 1 || (n == 0 && lost == 0) {
+				return lost, fmt.Errorf("request with token %s was handled %d times", s.token(cl, q), n)
+			}
+		}
+	}
+	if len(s.seen) > rounds*c.Clients*c.Reqs {
+		return lost, fmt.Errorf("handlers saw %d distinct tokens, only %d were sent", len(s.seen), rounds*c.Clients*c.Reqs)
+	}
+	return lost, nil
+}
+
+// round ph (0 = first start of srv, 1 = after the restart) binds srv to a fresh transport, starts it,
+// lets every client send its requests Reqs*ph+1 .. Reqs*(ph+1) padded with pad octets, and shuts down.
+func (s *crossState) round(srv *dns.Server, ph, pad int) (lost int, err error) {
+	c := s.c
+	when := ""
+	if ph > 0 {
+		when = fmt.Sprintf("after the restart (UDPSize %d -> %d): ", c.bufSize(0), c.bufSize(1))
+	}
 	var lis *memnet.Listener
 	var pn *memnet.PacketNet
 	var pc *memnet.PacketConn
 	var addr string
 	var wildPort int
 	udpReal := c.Transport == "realUDP" || c.Transport == "realUDPwild"
+	srv.Listener, srv.PacketConn = nil, nil
 	switch c.Transport {
 	case "memTCP":
 		lis = memnet.NewListener(nil, "")
@@ -477,19 +615,23 @@ func (s *crossState) run() (lost int, err error) {
 	default:
 		return 0, fmt.Errorf("unknown transport %q", c.Transport)
 	}
+	s.mu.Lock()
 	if srv.Listener != nil {
 		s.srvLocal = srv.Listener.Addr().String()
 	} else {
 		s.srvLocal = srv.PacketConn.LocalAddr().String()
 	}
+	s.mu.Unlock()
 	started := make(chan struct{})
 	srv.NotifyStartedFunc = func() { close(started) }
 	serveErr := make(chan error, 1)
 	go func() { serveErr <- srv.ActivateAndServe() }()
 	select {
 	case <-started:
+	case e := <-serveErr:
+		return 0, fmt.Errorf("%sserver did not start: %v", when, e)
 	case <-time.After(hangLimit):
-		return 0, fmt.Errorf("server did not start")
+		return 0, fmt.Errorf("%sserver did not start", when)
 	}
 	var lostN atomic.Int32
 	var wg sync.WaitGroup
@@ -522,7 +664,7 @@ func (s *crossState) run() (lost int, err error) {
 				}
 			}
 			if e != nil {
-				s.fail("client %d cannot connect: %v", cl, e)
+				s.fail("%sclient %d cannot connect: %v", when, cl, e)
 				return
 			}
 			defer conn.Close()
@@ -538,8 +680,8 @@ func (s *crossState) run() (lost int, err error) {
 				}
 			}
 			<-gate
-			for q := 1; q <= c.Reqs; q++ {
-				m := s.request(cl, q)
+			for q := c.Reqs*ph + 1; q <= c.Reqs*(ph+1); q++ {
+				m := s.request(cl, q, pad)
 				tok := s.token(cl, q)
 				tmo := hangLimit
 				if udpReal {
@@ -547,7 +689,7 @@ func (s *crossState) run() (lost int, err error) {
 				}
 				conn.SetDeadline(time.Now().Add(tmo))
 				if e := co.WriteMsg(m); e != nil {
-					s.fail("client %d request %d: write failed: %v", cl, q, e)
+					s.fail("%sclient %d request %d: write failed: %v", when, cl, q, e)
 					return
 				}
 				rep, e := co.ReadMsg()
@@ -565,7 +707,7 @@ func (s *crossState) run() (lost int, err error) {
 						lostN.Add(1)
 						return
 					}
-					s.fail("client %d request %d (token %s): no reply: %v", cl, q, tok, e)
+					s.fail("%sclient %d request %d (token %s): no reply: %v", when, cl, q, tok, e)
 					return
 				}
 				qn, _, opt, _ := tokens(rep)
@@ -576,7 +718,7 @@ func (s *crossState) run() (lost int, err error) {
 					}
 				}
 				if rep.Id != m.Id || rep.Rcode != dns.RcodeSuccess || qn != tok || ans != "re:"+tok || opt != "re:"+tok {
-					s.fail("client %d request %d (token %s, ID %d) received a reply that is not its own: ID %d rcode %d qname token %q answer %q OPT %q", cl, q, tok, m.Id, rep.Id, rep.Rcode, qn, ans, opt)
+					s.fail("%sclient %d request %d (token %s, ID %d, %d octets with %d octets of padding; the server's receive buffer is %d octets) received a reply that is not its own: ID %d rcode %d qname token %q answer %q OPT %q", when, cl, q, tok, m.Id, m.Len(), pad, c.bufSize(ph), rep.Id, rep.Rcode, qn, ans, opt)
 					return
 				}
 			}
@@ -598,43 +740,41 @@ func (s *crossState) run() (lost int, err error) {
 	select {
 	case <-done:
 	case <-time.After(3 * hangLimit):
-		return 0, fmt.Errorf("clients did not finish within %v", 3*hangLimit)
+		return 0, fmt.Errorf("%sclients did not finish within %v", when, 3*hangLimit)
 	}
 	sd := make(chan error, 1)
 	go func() { sd <- srv.Shutdown() }()
 	select {
 	case <-sd:
 	case <-time.After(hangLimit):
-		return 0, fmt.Errorf("Shutdown did not return within %v after the round", hangLimit)
+		return 0, fmt.Errorf("%sShutdown did not return within %v after the round", when, hangLimit)
 	}
 	select {
 	case <-serveErr:
 	case <-time.After(hangLimit):
-		return 0, fmt.Errorf("serve call did not return within %v", hangLimit)
+		return 0, fmt.Errorf("%sserve call did not return within %v", when, hangLimit)
 	}
-	s.mu.Lock()
-	defer s.mu.Unlock()
-	if len(s.bad) > 0 {
-		return int(lostN.Load()), fmt.Errorf("%s", strings.Join(s.bad, "\n"))
-	}
-	lost = int(lostN.Load())
-	// every handler saw exactly one sent request: each token at most once, and - unless a real
-	// datagram was lost on the way in - exactly once
-	for cl := 1; cl <= c.Clients; cl++ {
-		for q := 1; q <= c.Reqs; q++ {
-			n := s.seen[s.token(cl, q)]
-			if n > 1 || (n == 0 && lost == 0) {
-				return lost, fmt.Errorf("request with token %s was handled %d times", s.token(cl, q), n)
-			}
+	return int(lostN.Load()), nil
+}
+
+// probeRestartPool is the breaker's input of remark 1 (round 7) as a round of this check: a datagram
+// server with the default 512-octet buffer serves a burst, is shut down, gets UDPSize 4096 and is
+// started again; the second round's requests are about 4000 octets. Whether a stale 512-octet buffer
+// is handed out depends on which P's pool slot the reading goroutine looks at, so the round is
+// repeated a few times; on the unchanged tree the first attempt practically always shows it.
+func probeRestartPool() error {
+	for attempt := 0; attempt < 8; attempt++ {
+		c := Cross{Transport: "memPacket", Clients: 32, Reqs: 3, SleepUs: []int{0, 200}, UDPSize: 0, Restart: true, UDPSize2: 4096, Big2: true, Salt: uint32(attempt)}
+		s := &crossState{c: c, seen: map[string]int{}, addrs: map[int]string{}, nonce: fmt.Sprintf("p%dr%d", os.Getpid(), crossSeq.Add(1))}
+		if _, err := s.run(); err != nil {
+			return err
 		}
 	}
-	if len(s.seen) > c.Clients*c.Reqs {
-		return lost, fmt.Errorf("handlers saw %d distinct tokens, only %d were sent", len(s.seen), c.Clients*c.Reqs)
-	}
-	return lost, nil
+	return nil
 }
 
 func init() {
+	pbt.Probe(knownRestartPool, probeRestartPool)
 	pbt.Register(pbt.Sub[Cross]{Name: "crosstalk-mem", Weight: 0.1, Gen: genCross([]string{"memPacket", "memPacket", "memTCP"}), Check: checkCross})
 	pbt.Register(pbt.Sub[Cross]{Name: "crosstalk-real", Weight: 0.1, Gen: genCross([]string{"realUDP", "realUDPwild", "realUDPwild", "realTCP"}), Check: checkCross})
 }
